@@ -117,6 +117,8 @@ func famRedef(r *rng) []string {
 		base := 1 + r.intn(3)
 		res = append(res, fmt.Sprintf("gq = func(){%d}", base),
 			pickS(r, fmt.Sprintf("func fq(n) { if n == 0 { return gq() }; gq := func(){%d}; fq(n-1) }", base+5),
+				"func fq(n) { if n == 0 { return catch(gq()).err }; gq := 5; fq(n-1) }",
+				"func fq(n) { if n == 0 { return catch(gq()).err }; gq := \"s\"; fq(n-1) }",
 				fmt.Sprintf("fq = func(n) { if n == 0 { return gq() }; gq = func(){%d}; self(n-1) }", base+5)),
 			"println(fq(0))", "println(fq(1))", "println(fq(0))")
 	}
